@@ -119,7 +119,7 @@ package store
 //@ func (s *Store) Close() (err error)  property C02 C03 C17
 //@   exclusive Close is the shutdown of the store and is not among the concurrent operations C16 lists
 //@   preserves s
-//@   modifies s.open, s.running, chan(s.closing), chan(s.closed), fp(FC), fp(INDEXCLOSE), s.index.$pending, s.index.$closed, s.index.Primary.$pending, s.index.Primary.$closed, s.index.Primary.$failed, s.freelist.blockPool, s.freelist.outstandingWork, s.freelist.$pending, s.freelist.file.$open
+//@   modifies s.open, s.running, chan(s.closing), chan(s.closed), fp(FC), fp(INDEXCLOSE), once(s.index.closeOnce), s.index.$pending, s.index.$closed, s.index.Primary.$pending, s.index.Primary.$closed, s.index.Primary.$failed, s.freelist.blockPool, s.freelist.outstandingWork, s.freelist.$pending, s.freelist.file.$open
 //@   assert at before call (primary.PrimaryStorage).Flush#0: @C17-flusher-stopped old(s.running) ==> closed(s.closing) && waited(s.closed)
 //@   assert at before call freelist.FreeList.Close#0: @D1-index-before-freelist !s.index.$pending || event("call:index.Index.Close") == 1
 //@   ensures @C02-idempotent old(!s.open) ==> err == nil && event("call:index.Index.Close") == 0 && event("call:(primary.PrimaryStorage).Close") == 0 && event("call:freelist.FreeList.Close") == 0 && event("call:(primary.PrimaryStorage).Flush") == 0
